@@ -57,6 +57,12 @@ EXTRAS = [
     # keyword inputs, transient dist on a weak var, argument order b-before-a
     {"items": [{"kind": "var"}, {"kind": "calc", "inputs": [0]}, {"kind": "calc", "inputs": [1, 0], "kw": [False, True]}, {"kind": "tcalc", "inputs": [2, 1]}]},
     {"items": [{"kind": "var"}, {"kind": "value"}, {"kind": "wvar", "inputs": [0]}, {"kind": "tdist", "var": 2, "inputs": [1], "kw": True}]},
+    # a seeded node whose seed input is supplied by the USER (takes precedence over the model seed)
+    {"items": [{"kind": "var"}, {"kind": "value"}, {"kind": "calc", "inputs": [0], "seed": True, "user_seed": 1}, {"kind": "calc", "inputs": [2]}]},
+    # a free-standing distribution node (no variable, `at` set by hand) next to ordinary variables
+    {"items": [{"kind": "var"}, {"kind": "value"}, {"kind": "calc", "inputs": [0]}, {"kind": "bdist", "at": 2, "inputs": [1]}]},
+    # a node wired directly to a variable's value node instead of to the variable
+    {"items": [{"kind": "var"}, {"kind": "calc", "inputs": [0], "raw": [True]}, {"kind": "wvar", "inputs": [1]}, {"kind": "wvar", "inputs": [0, 2], "raw": [True, False]}]},
 ]
 
 
@@ -148,8 +154,8 @@ def check_structure(res, b: programs.Built, m, where, program):
     # reference node set from the program
     want = 3  # _model_log_*
     for it in b.items:
-        want += {"value": 1, "var": 2, "calc": 1, "tcalc": 1, "wvar": 2, "dist": 1, "tdist": 1}[it["kind"]]
-        if it.get("seed"):
+        want += {"value": 1, "var": 2, "calc": 1, "tcalc": 1, "wvar": 2, "dist": 1, "tdist": 1, "bdist": 1}[it["kind"]]
+        if it.get("seed") and "user_seed" not in it:
             want += 1
     if len(m.nodes) != want:
         probs.append(("completeness", f"model has {len(m.nodes)} nodes, reference closure has {want}"))
@@ -175,12 +181,35 @@ def check_structure(res, b: programs.Built, m, where, program):
             node = o.value_node if isinstance(o, lsl.Var) else o
             got = [x for x in node.inputs] + [x for k, x in sorted(node.kwinputs.items()) if k != "seed"]
             kwmask = it.get("kw") or [False] * len(it["inputs"])
-            ref = [b.out[j] for j, kw in zip(it["inputs"], kwmask) if not kw] + [b.out[j] for j, kw in zip(it["inputs"], kwmask) if kw]
+            rawmask = it.get("raw") or [False] * len(it["inputs"])
+            outs = [(b.objs[j].value_node if raw and isinstance(b.objs[j], lsl.Var) else b.out[j]) for j, raw in zip(it["inputs"], rawmask)]
+            ref = [x for x, kw in zip(outs, kwmask) if not kw] + [x for x, kw in zip(outs, kwmask) if kw]
+            if "user_seed" in it and node.kwinputs.get("seed") is not b.out[it["user_seed"]]:
+                probs.append(("edges", f"item {i}: the user-supplied seed input is no longer connected"))
             if len(got) != len(ref) or any(g is not r for g, r in zip(got, ref)):
                 probs.append(("edges", f"item {i}: inputs differ from the program"))
         if it["kind"] in ("dist", "tdist"):
             if o.at is not b.out[it["var"]]:
                 probs.append(("edges", f"item {i}: dist.at is not its variable's value proxy"))
+    for i, it in enumerate(b.items):
+        if it["kind"] == "bdist" and b.objs[i].at is not b.out[it["at"]]:
+            probs.append(("edges", f"item {i}: free-standing dist is not evaluated at the node it was given"))
+    # variable level: outputs are the inverse of inputs
+    vs = list(m.vars.values())
+    for x in vs:
+        for z in vs:
+            if x is z:
+                continue
+            a, c = x in z.all_input_vars(), z in x.all_output_vars()
+            if a != c:
+                probs.append(("var-outputs", f"var {x.name} {'is' if a else 'is not'} an input var of {z.name} but {z.name} {'is' if c else 'is not'} among its output vars"))
+        for n in x.all_output_nodes():
+            if not any(i_ in x.nodes for i_ in n.all_input_nodes()):
+                probs.append(("var-outputs", f"{n.name} listed as output node of var {x.name} without taking any of its nodes as input"))
+        for node in x.nodes:
+            for o in node.outputs:
+                if o not in x.nodes and o not in x.all_output_nodes():
+                    probs.append(("var-outputs", f"{o.name} takes a node of var {x.name} as input but is missing from its output nodes"))
     # model log prob node inputs = all dists
     dists = {n.name for n in m.nodes.values() if isinstance(n, lsl.Dist)}
     got = {n.name for n in m.nodes["_model_log_prob"].all_input_nodes()}
@@ -209,8 +238,10 @@ def check_topological(res, b, m, program, where):
         deps = set(it.get("inputs", []))
         if it["kind"] in ("dist", "tdist"):
             deps.add(it["var"])
+        if it["kind"] == "bdist":
+            deps.add(it["at"])
         anc.append(deps)
-    caching = {i for i, it in enumerate(b.items) if it["kind"] in ("calc", "wvar", "dist")}  # tdist/tcalc are transient
+    caching = {i for i, it in enumerate(b.items) if it["kind"] in ("calc", "wvar", "dist", "bdist")}  # tdist/tcalc are transient
 
     def first_cached_ancestors(i, acc):
         for j in anc[i]:
@@ -221,12 +252,12 @@ def check_topological(res, b, m, program, where):
         return acc
 
     for i in caching:
-        tag = ("d", i) if b.items[i]["kind"] in ("dist", "tdist") else ("c", i)
+        tag = ("d", i) if b.items[i]["kind"] in ("dist", "tdist", "bdist") else ("c", i)
         if tag not in pos:
             res.violation("structure", "topological", {"program": program, "where": where}, f"item {i} not evaluated by update() after assigning all inputs ({where})")
             continue
         for j in first_cached_ancestors(i, set()):
-            tj = ("d", j) if b.items[j]["kind"] in ("dist", "tdist") else ("c", j)
+            tj = ("d", j) if b.items[j]["kind"] in ("dist", "tdist", "bdist") else ("c", j)
             # the LAST evaluation of the ancestor must precede the first of the child
             last_j = max(k for k, t in enumerate(b.order) if t == tj) if tj in pos else -1
             if last_j > pos[tag]:
@@ -269,6 +300,12 @@ def attempt_mutations(lsl, m):
             trial(name, "at_none", lambda: setattr(n, "at", None))
             trial(name, "distribution", lambda: setattr(n, "distribution", lambda *a, **k: None))
             trial(name, "per_obs", lambda: setattr(n, "per_obs", not n.per_obs))
+    # an object OUTSIDE the model must not be able to capture in-model nodes
+    for name, n in list(m.nodes.items()):
+        if isinstance(n, lsl.Dist):
+            trial(name, "captured-as-dist_node", lambda: setattr(lsl.Var(("in", 5), name="outsider"), "dist_node", n))
+        if not name.startswith("_model") and n.var is None:
+            trial(name, "captured-as-value_node", lambda: setattr(lsl.Var(("in", 5), name="outsider2"), "value_node", n))
     for name, v in list(m.vars.items()):
         trial(name, "value_node", lambda: setattr(v, "value_node", lsl.Value(("in", 7))))
         trial(name, "value_node_raw", lambda: setattr(v, "value_node", ("in", 7)))
